@@ -76,8 +76,23 @@ class _FFT:
         return _np.fft.ifftshift(x, axes=axes)
 
 
+class _NdMeta(type):
+    def __instancecheck__(cls, obj):
+        # real ndarrays, and shape-only image stubs that stand for an in-memory array
+        return isinstance(obj, _np.ndarray) or bool(getattr(obj, "numpy_like", False))
+
+    def __subclasscheck__(cls, sub):
+        return issubclass(sub, _np.ndarray)
+
+
+class _NdArrayLike(_np.ndarray, metaclass=_NdMeta):
+    """`np.ndarray` as seen by loaded modules (isinstance target)"""
+
+
 class SymNP:
     """Module-like proxy for numpy."""
+
+    ndarray = _NdArrayLike
 
     linalg = _Linalg()
     fft = _FFT()
